@@ -9,8 +9,8 @@ from sim.ctx import RunCtx, make_scheduler, gen_sched
 from sim import shrink as shr
 
 PROP = 'C14'
-QUICK_RUNS = 30000
-THOROUGH_RUNS = 400000
+QUICK_RUNS = 60000
+THOROUGH_RUNS = 1500000
 QUICK_WALL = 100
 THOROUGH_WALL = 1500
 CHUNK = 100
